@@ -299,14 +299,38 @@ func (a *modFn) derive1(v ssa.Value) locSet {
 				return locSet{}
 			}
 			out := locSet{}
-			for l := range a.derive(v.X) {
+			dx := a.derive(v.X)
+			if len(dx) == 1 {
+				for l := range dx {
+					if strings.HasPrefix(locRoot(l), "a:") {
+						if sv := a.strongStore(l, v); sv != nil {
+							return a.derive(sv)
+						}
+					}
+				}
+			}
+			for l := range dx {
 				root := locRoot(l)
 				if strings.HasPrefix(root, "a:") {
-					// load from local memory: what was stored there (field-insensitive)
-					for x := range a.m.pts[a.f][root] {
+					// load from local memory: what was stored into that cell (field-sensitive),
+					// plus what was stored into the allocation as a whole
+					for x := range a.m.pts[a.f][l] {
 						out[x] = true
 					}
-					// also the allocation itself for struct values holding references copied by value
+					if l != root {
+						rest := locRest(l)
+						for x := range a.m.pts[a.f][root+"#whole"] {
+							out[appendRest(x, rest)] = true
+						}
+					} else {
+						for k, set := range a.m.pts[a.f] {
+							if strings.HasPrefix(k, root) {
+								for x := range set {
+									out[x] = true
+								}
+							}
+						}
+					}
 					continue
 				}
 				out[l] = true
@@ -566,10 +590,18 @@ func (m *ModAnalysis) analyse(f *ssa.Function) {
 					root := locRoot(l)
 					if strings.HasPrefix(root, "a:") {
 						if isRefLike(in.Val.Type()) {
-							ps := m.pts[f][root]
+							key := l
+							if _, isStruct := in.Val.Type().Underlying().(*types.Struct); isStruct {
+								// a struct value stored as a whole: its reference fields keep their paths
+								key = l + "#whole"
+								if l != root {
+									key = l // nested struct stored into a field: keep field-insensitive below that
+								}
+							}
+							ps := m.pts[f][key]
 							if ps == nil {
 								ps = locSet{}
-								m.pts[f][root] = ps
+								m.pts[f][key] = ps
 							}
 							for x := range a.derive(in.Val) {
 								if ps.add(x) {
@@ -586,10 +618,10 @@ func (m *ModAnalysis) analyse(f *ssa.Function) {
 					root := locRoot(l)
 					if strings.HasPrefix(root, "a:") {
 						if isRefLike(in.Value.Type()) {
-							ps := m.pts[f][root]
+							ps := m.pts[f][extend(l, "[*]")]
 							if ps == nil {
 								ps = locSet{}
-								m.pts[f][root] = ps
+								m.pts[f][extend(l, "[*]")] = ps
 							}
 							for x := range a.derive(in.Value) {
 								if ps.add(x) {
@@ -759,9 +791,7 @@ func (m *ModAnalysis) DeepOrigins(f *ssa.Function) locSet {
 			out[l] = true
 			continue
 		}
-		for x := range m.pts[f][root] {
-			push(x)
-		}
+		a.expandAlloc(root, push)
 		// fresh object produced by a call: what the callee may have stored into it
 		if v, ok := m.allocVal[root]; ok {
 			if call, ok := v.(*ssa.Call); ok {
@@ -778,4 +808,198 @@ func (m *ModAnalysis) DeepOrigins(f *ssa.Function) locSet {
 	}
 	m.deep[f] = out
 	return out
+}
+
+// strongStore: if the local cell `loc` is definitely overwritten by a single store that dominates
+// the load and comes after every other store to the cell (or to the enclosing allocation), that
+// store's value is the only thing the load can see.
+func (a *modFn) strongStore(loc string, load *ssa.UnOp) ssa.Value {
+	root := locRoot(loc)
+	if _, ok := a.m.allocVal[root].(*ssa.Alloc); !ok {
+		return nil
+	}
+	var cands []*ssa.Store
+	for _, b := range a.f.Blocks {
+		for _, in := range b.Instrs {
+			st, ok := in.(*ssa.Store)
+			if !ok {
+				continue
+			}
+			for l := range a.derive(st.Addr) {
+				if l == loc || l == root || strings.HasPrefix(loc, l+".") {
+					cands = append(cands, st)
+					break
+				}
+			}
+		}
+	}
+	var best *ssa.Store
+	for _, s := range cands {
+		ok := false
+		for l := range a.derive(s.Addr) {
+			if l == loc && len(a.derive(s.Addr)) == 1 {
+				ok = true
+			}
+		}
+		if !ok || !instrDominates(s, load) {
+			continue
+		}
+		all := true
+		for _, t := range cands {
+			if t != s && !instrDominates(t, s) {
+				all = false
+			}
+		}
+		if all {
+			best = s
+		}
+	}
+	if best == nil {
+		return nil
+	}
+	// the allocation must not escape to a callee or closure that could write the cell in between
+	if al, ok := a.m.allocVal[root].(*ssa.Alloc); ok && al.Referrers() != nil {
+		for _, r := range *al.Referrers() {
+			switch r.(type) {
+			case *ssa.FieldAddr, *ssa.Store, *ssa.UnOp, *ssa.DebugRef, *ssa.Return, *ssa.MakeInterface:
+			default:
+				return nil
+			}
+		}
+	}
+	return best.Val
+}
+
+// DeepOriginsOf: like DeepOrigins, for one value of f.
+func (m *ModAnalysis) DeepOriginsOf(f *ssa.Function, v ssa.Value) locSet {
+	out := locSet{}
+	a := m.fnCtx(f)
+	seen := locSet{}
+	var work []string
+	push := func(l string) {
+		if !seen[l] {
+			seen[l] = true
+			work = append(work, l)
+		}
+	}
+	for l := range a.derive(v) {
+		push(l)
+	}
+	for len(work) > 0 {
+		l := work[len(work)-1]
+		work = work[:len(work)-1]
+		root := locRoot(l)
+		if !strings.HasPrefix(root, "a:") {
+			out[l] = true
+			continue
+		}
+		a.expandAlloc(root, push)
+		if av, ok := m.allocVal[root]; ok {
+			if call, ok := av.(*ssa.Call); ok {
+				mod, _, _, _ := a.callees(call.Common())
+				for _, ci := range mod {
+					for o := range m.DeepOrigins(ci.fn) {
+						for x := range a.translate(o, ci.args, ci.bindings) {
+							push(x)
+						}
+					}
+				}
+			}
+		}
+	}
+	return out
+}
+
+// expandAlloc pushes everything stored into the cells of a local allocation. A struct value stored
+// as a whole (`*r = *s`) contributes, per reference-typed field, the field of the source — unless
+// that field is definitely overwritten afterwards on every way out of the function.
+func (a *modFn) expandAlloc(root string, push func(string)) {
+	m := a.m
+	for k, set := range m.pts[a.f] {
+		if k == root+"#whole" {
+			continue
+		}
+		if k == root || strings.HasPrefix(k, root+".") || strings.HasPrefix(k, root+"[") {
+			for x := range set {
+				push(x)
+			}
+		}
+	}
+	whole := m.pts[a.f][root+"#whole"]
+	if len(whole) == 0 {
+		return
+	}
+	var st *types.Struct
+	if al, ok := m.allocVal[root].(*ssa.Alloc); ok {
+		if pt, ok := al.Type().Underlying().(*types.Pointer); ok {
+			st, _ = pt.Elem().Underlying().(*types.Struct)
+		}
+	}
+	if st == nil {
+		for x := range whole {
+			push(x)
+		}
+		return
+	}
+	for i := 0; i < st.NumFields(); i++ {
+		fld := st.Field(i)
+		if !isRefLike(fld.Type()) {
+			continue
+		}
+		if a.fieldOverridden(root, fld.Name()) {
+			continue
+		}
+		for x := range whole {
+			push(extend(x, "."+fld.Name()))
+		}
+	}
+}
+
+// fieldOverridden: some store to root.<field> comes after every whole-struct store to root and
+// dominates every return of the function.
+func (a *modFn) fieldOverridden(root, field string) bool {
+	var wholes, fields []*ssa.Store
+	var rets []*ssa.Return
+	for _, b := range a.f.Blocks {
+		for _, in := range b.Instrs {
+			switch in := in.(type) {
+			case *ssa.Return:
+				rets = append(rets, in)
+			case *ssa.Store:
+				d := a.derive(in.Addr)
+				if len(d) != 1 {
+					for l := range d {
+						if l == root || l == root+"."+field {
+							return false // ambiguous address: be conservative
+						}
+					}
+					continue
+				}
+				for l := range d {
+					if l == root {
+						wholes = append(wholes, in)
+					} else if l == root+"."+field {
+						fields = append(fields, in)
+					}
+				}
+			}
+		}
+	}
+	for _, s := range fields {
+		ok := true
+		for _, w := range wholes {
+			if !instrDominates(w, s) {
+				ok = false
+			}
+		}
+		for _, r := range rets {
+			if !instrDominates(s, r) {
+				ok = false
+			}
+		}
+		if ok {
+			return true
+		}
+	}
+	return false
 }
